@@ -127,6 +127,7 @@ let () =
           match words line with
           | rev :: rest -> out (string_of_str (M.entry_mt (rev = "1") (cps rest)))
           | _ -> failwith "mt: bad line")
+  | "fm" -> iter_lines path (fun line -> out (string_of_str (M.entry_fm (cps (words line)))))
   | "run" ->
       iter_lines path (fun line ->
           let src, inputs = split_bar line in
